@@ -4,58 +4,344 @@ Require Import GM.model.Base GM.model.Util GM.model.Reader GM.model.Blocks GM.mo
 From Coq Require Import ZArith Lia ZifyBool ZifyNat ZifyN.
 Open Scope Z_scope.
 
+(* ---------- auxiliary range lemmas ---------- *)
+Lemma br_zlen_nonneg {A} (l : list A) : 0 <= zlen l.
+Proof. unfold zlen. lia. Qed.
+Lemma br_zlen_cons {A} (x : A) (l : list A) : zlen (x :: l) = 1 + zlen l.
+Proof. unfold zlen. cbn [length]. lia. Qed.
+Lemma br_zlen_nil {A} : zlen (@nil A) = 0.
+Proof. reflexivity. Qed.
+
+Lemma br_zlen_zskip {A} (n : Z) (l : list A) : zlen (zskip n l) = Z.max 0 (zlen l - Z.max 0 n).
+Proof. unfold zlen, zskip. rewrite skipn_length. lia. Qed.
+
+Lemma br_count_byte_range ch l : 0 <= count_byte ch l <= zlen l.
+Proof.
+  induction l as [|c r IH]; cbn [count_byte].
+  - rewrite br_zlen_nil. lia.
+  - rewrite br_zlen_cons. destruct (N.eqb c ch); lia.
+Qed.
+Lemma br_count_blanks_range l : 0 <= count_blanks l <= zlen l.
+Proof.
+  induction l as [|c r IH]; cbn [count_blanks].
+  - rewrite br_zlen_nil. lia.
+  - rewrite br_zlen_cons. destruct (N.eqb c 32); lia.
+Qed.
+Lemma br_count_digits_range l : 0 <= count_digits l <= zlen l.
+Proof.
+  induction l as [|c r IH]; cbn [count_digits].
+  - rewrite br_zlen_nil. lia.
+  - rewrite br_zlen_cons. destruct (N.leb 48 c && N.leb c 57)%bool; lia.
+Qed.
+Lemma br_tls_range st l : 0 <= trim_left_space_len st l <= zlen l.
+Proof.
+  induction l as [|c r IH]; cbn [trim_left_space_len].
+  - rewrite br_zlen_nil. lia.
+  - rewrite br_zlen_cons. destruct (is_space st c); lia.
+Qed.
+Lemma br_trs_range st l : 0 <= trim_right_space_len st l <= zlen l.
+Proof.
+  unfold trim_right_space_len. pose proof (br_tls_range st (rev l)) as H.
+  unfold zlen in *. rewrite rev_length in H. exact H.
+Qed.
+
+Lemma br_ip_loop_range bs cur width : forall w i p w' i',
+  indent_position_loop bs cur w i p width = (w', i') -> i <= i' <= i + zlen bs.
+Proof.
+  induction bs as [|c r IH]; intros w i p w' i' H; cbn [indent_position_loop] in H.
+  - injection H as _ Hi. rewrite br_zlen_nil. lia.
+  - rewrite br_zlen_cons. pose proof (br_zlen_nonneg r) as Hr.
+    destruct (0 <? p).
+    { apply IH in H. lia. }
+    destruct (N.eqb c 9 && (w <? width))%bool.
+    { apply IH in H. lia. }
+    destruct (N.eqb c 32 && (w <? width))%bool.
+    { apply IH in H. lia. }
+    injection H as _ Hi. lia.
+Qed.
+
+Lemma br_fnsp_range l : forall i, first_non_space_position l i = -1 \/ i <= first_non_space_position l i < i + zlen l.
+Proof.
+  induction l as [|c r IH]; intros i; cbn [first_non_space_position].
+  - left. reflexivity.
+  - rewrite br_zlen_cons. pose proof (br_zlen_nonneg r) as Hr.
+    destruct (N.eqb c 32 || N.eqb c 9)%bool.
+    { destruct (IH (i + 1)) as [E|E]; [left; exact E|right; lia]. }
+    destruct (N.eqb c 10); [left; reflexivity|right; lia].
+Qed.
+
+Lemma br_boh_range line start : forall fuel i, start - 1 <= i ->
+  start - 1 <= back_over_hashes fuel line i start <= i.
+Proof.
+  induction fuel as [|f IH]; intros i Hi; cbn [back_over_hashes].
+  - lia.
+  - destruct (N.eqb (nth_byte line i) 35); cbn [andb]; [|lia].
+    destruct (Z.leb_spec start i) as [Hle|Hlt]; [|lia].
+    specialize (IH (i - 1)). lia.
+Qed.
+
+Lemma br_body_nonempty (n : Z) (x s : bytes) : length (trim_right (zfirst n x) s) <> 0%nat -> 0 < n.
+Proof.
+  intros H. destruct (Z.ltb_spec 0 n) as [Hlt|Hge]; [exact Hlt|].
+  exfalso. apply H. unfold zfirst. replace (Z.to_nat n) with 0%nat by lia. reflexivity.
+Qed.
+
 Section WithTables.
 Variable space_table : list N.
 
 (* parseListItem: when it recognises a marker, the indices it reports are ordered and inside the line *)
+Lemma br_tail_range (line : bytes) (ind i : Z) (t : N) (m : lmatch) (typ : N) :
+  parse_list_item_tail line ind i t = (m, typ) -> typ <> 0%N -> 0 <= ind <= 3 -> ind < i <= zlen line ->
+  0 <= m1 m <= 3 /\ m2 m = m1 m /\ m1 m < m3 m <= zlen line /\
+  ((m4 m = -1 /\ m5 m = -1 /\ m3 m = zlen line) \/ (m4 m = m3 m /\ m3 m < zlen line /\ m4 m <= m5 m <= zlen line)).
+Proof.
+  intros H Htyp Hind Hi. unfold parse_list_item_tail in H. cbv zeta in H.
+  destruct ((i <? zlen line) && negb (N.eqb (nth_byte line i) 10) && (fst (indent_width (zskip i line) 0) =? 0))%bool.
+  { injection H as _ Ht. congruence. }
+  destruct (Z.leb_spec (zlen line) i) as [Hle|Hlt].
+  { injection H as Hm _. subst m. cbn [m1 m2 m3 m4 m5]. repeat split; try lia. left. lia. }
+  injection H as Hm _. subst m. cbn [m1 m2 m3 m4 m5]. repeat split; try lia. right.
+  destruct (N.eqb (nth_byte line (zlen line - 1)) 10 && negb (N.eqb (nth_byte line i) 10))%bool; lia.
+Qed.
+
 Theorem parse_list_item_in_range (line : bytes) (m : lmatch) (typ : N) :
   parse_list_item line = (m, typ) -> typ <> 0%N ->
   0 <= m1 m <= 3 /\ m2 m = m1 m /\ m1 m < m3 m <= zlen line /\
   ((m4 m = -1 /\ m5 m = -1 /\ m3 m = zlen line) \/ (m4 m = m3 m /\ m3 m < zlen line /\ m4 m <= m5 m <= zlen line)).
-Proof. Admitted.
+Proof.
+  intros H Htyp. unfold parse_list_item in H. cbv zeta in H.
+  pose proof (br_count_blanks_range line) as Hb.
+  destruct (Z.ltb_spec 3 (count_blanks line)) as [H3|H3].
+  { injection H as _ Ht. congruence. }
+  destruct (Z.leb_spec (zlen line) (count_blanks line)) as [Hl|Hl].
+  { injection H as _ Ht. congruence. }
+  destruct (N.eqb (nth_byte line (count_blanks line)) 45 || N.eqb (nth_byte line (count_blanks line)) 42
+            || N.eqb (nth_byte line (count_blanks line)) 43)%bool.
+  { apply br_tail_range in H; [exact H|exact Htyp|lia|lia]. }
+  pose proof (br_count_digits_range (zskip (count_blanks line) line)) as Hd.
+  destruct (Z.eqb_spec (count_digits (zskip (count_blanks line) line)) 0) as [E0|E0]; cbn [orb] in H.
+  { injection H as _ Ht. congruence. }
+  destruct (Z.ltb_spec 9 (count_digits (zskip (count_blanks line) line))) as [E9|E9].
+  { injection H as _ Ht. congruence. }
+  destruct (Z.ltb_spec (count_blanks line + count_digits (zskip (count_blanks line) line)) (zlen line)) as [Hj|Hj];
+    cbn [andb] in H.
+  2:{ injection H as _ Ht. congruence. }
+  destruct (N.eqb (nth_byte line (count_blanks line + count_digits (zskip (count_blanks line) line))) 46
+            || N.eqb (nth_byte line (count_blanks line + count_digits (zskip (count_blanks line) line))) 41)%bool.
+  2:{ injection H as _ Ht. congruence. }
+  apply br_tail_range in H; [exact H|exact Htyp|lia|lia].
+Qed.
 
 (* IndentPosition: a found position is inside the byte string and the padding is not negative *)
 Theorem indent_position_in_range (bs : bytes) (cur width pos padding : Z) :
   0 <= cur -> 0 <= width ->
   indent_position bs cur width = (pos, padding) -> pos <> -1 ->
   0 <= pos <= zlen bs /\ 0 <= padding.
-Proof. Admitted.
+Proof.
+  intros Hcur Hw H Hpos. unfold indent_position, indent_position_padding in H.
+  pose proof (br_zlen_nonneg bs) as Hbs.
+  destruct (Z.eqb_spec width 0) as [E|E].
+  { injection H as Hp Hq. lia. }
+  destruct (indent_position_loop bs cur 0 0 0 width) as [w i] eqn:Hloop.
+  apply br_ip_loop_range in Hloop.
+  destruct (Z.leb_spec width w) as [Hle|Hlt].
+  - injection H as Hp Hq. lia.
+  - injection H as Hp Hq. lia.
+Qed.
 
 (* ATX headings *)
+Lemma br_atx_open_cases (line : bytes) (pos : Z) :
+  atx_open space_table line pos = Ok None \/
+  exists lv, 1 <= lv <= 6 /\
+    (atx_open space_table line pos = Ok (Some (lv, None)) \/
+     exists a b, atx_open space_table line pos = Ok (Some (lv, Some (a, b))) /\ pos < a /\ a < b /\ b <= zlen line).
+Proof.
+  unfold atx_open.
+  destruct (Z.ltb_spec pos 0) as [Hneg|Hpos]; [left; reflexivity|].
+  cbv zeta.
+  set (k := count_byte 35 (zskip pos line)).
+  assert (Hk : 0 <= k <= zlen (zskip pos line)) by apply br_count_byte_range.
+  rewrite br_zlen_zskip in Hk.
+  replace (pos + k - pos) with k by lia.
+  destruct (Z.eqb_spec (pos + k) pos) as [E|E]; [left; reflexivity|].
+  destruct (Z.ltb_spec 6 k) as [E6|E6]; [left; reflexivity|]. cbn [orb].
+  destruct (Z.eqb_spec (pos + k) (zlen line)) as [El|El].
+  { right. exists k. split; [lia|]. left. reflexivity. }
+  set (tl := trim_left_space_len space_table (zskip (pos + k) line)).
+  assert (Htl : 0 <= tl <= zlen (zskip (pos + k) line)) by apply br_tls_range.
+  rewrite br_zlen_zskip in Htl.
+  destruct (Z.eqb_spec tl 0) as [Et|Et]; [left; reflexivity|].
+  set (start := if zlen line <=? pos + k + tl then zlen line - 1 else pos + k + tl).
+  assert (Hstart : pos + k <= start <= zlen line - 1).
+  { subst start. destruct (Z.leb_spec (zlen line) (pos + k + tl)); lia. }
+  set (stop0 := zlen line - trim_right_space_len space_table line).
+  assert (Hstop0 : stop0 <= zlen line).
+  { subst stop0. pose proof (br_trs_range space_table line). lia. }
+  right. exists k. split; [lia|].
+  destruct (Z.leb_spec stop0 start) as [Hss|Hss].
+  - destruct (Z.ltb_spec start 0) as [Hs0|Hs0]; [lia|].
+    destruct (Nat.eqb_spec (length (trim_right (zfirst (start - start) (zskip start line)) [35%N])) 0) as [Eb|Eb].
+    + left. reflexivity.
+    + apply br_body_nonempty in Eb. lia.
+  - set (j := back_over_hashes (length line) line (stop0 - 1) start).
+    assert (Hj : start - 1 <= j <= stop0 - 1) by (apply br_boh_range; lia).
+    destruct (Z.ltb_spec j 0) as [Hj0|Hj0]; [lia|].
+    set (j' := if (negb (j =? stop0 - 1) && negb (is_space space_table (nth_byte line j)))%bool then stop0 - 1 else j).
+    assert (Hj' : 0 <= j' <= stop0 - 1).
+    { subst j'. destruct (negb (j =? stop0 - 1) && negb (is_space space_table (nth_byte line j)))%bool; lia. }
+    destruct (Z.ltb_spec (j' + 1) 0) as [Hp|Hp]; [lia|].
+    destruct (Nat.eqb_spec (length (trim_right (zfirst (j' + 1 - start) (zskip start line)) [35%N])) 0) as [Eb|Eb].
+    + left. reflexivity.
+    + right. exists start, (j' + 1). split; [reflexivity|].
+      apply br_body_nonempty in Eb. lia.
+Qed.
+
 Theorem atx_open_total (line : bytes) (pos : Z) : atx_open space_table line pos <> Panic.
-Proof. Admitted.
+Proof.
+  destruct (br_atx_open_cases line pos) as [E|[lv [_ [E|[a [b [E _]]]]]]]; rewrite E; discriminate.
+Qed.
 Theorem atx_open_in_range (line : bytes) (pos lv a b : Z) :
   atx_open space_table line pos = Ok (Some (lv, Some (a, b))) ->
   1 <= lv <= 6 /\ pos < a /\ a < b /\ b <= zlen line.
-Proof. Admitted.
+Proof.
+  intros H.
+  destruct (br_atx_open_cases line pos) as [E|[lv' [Hlv [E|[a' [b' [E Hab]]]]]]]; rewrite E in H; try discriminate.
+  injection H as H1 H2 H3. subst lv' a' b'. split; [exact Hlv|exact Hab].
+Qed.
 Theorem atx_open_level (line : bytes) (pos lv : Z) (o : option (Z * Z)) :
   atx_open space_table line pos = Ok (Some (lv, o)) -> 1 <= lv <= 6.
-Proof. Admitted.
+Proof.
+  intros H.
+  destruct (br_atx_open_cases line pos) as [E|[lv' [Hlv [E|[a' [b' [E Hab]]]]]]]; rewrite E in H; try discriminate.
+  - injection H as H1 _. subst lv'. exact Hlv.
+  - injection H as H1 _. subst lv'. exact Hlv.
+Qed.
 
 (* fences *)
 Theorem fence_open_total (line : bytes) (pos : Z) : pos < zlen line -> fence_open space_table line pos <> Panic.
-Proof. Admitted.
+Proof.
+  intros Hlt. unfold fence_open.
+  destruct (Z.ltb_spec pos 0) as [Hneg|Hpos]; [discriminate|].
+  unfold at_.
+  destruct (Z.leb_spec 0 pos) as [_|Hc]; [|lia].
+  destruct (Z.ltb_spec pos (zlen line)) as [_|Hc]; [|lia].
+  cbn [andb bind]. cbv zeta.
+  set (c := nth (Z.to_nat pos) line 0%N).
+  destruct (negb (N.eqb c 96 || N.eqb c 126)); [discriminate|].
+  destruct (count_byte c (zskip pos line) <? 3); [discriminate|].
+  destruct (pos + count_byte c (zskip pos line) <? zlen line - 1); [|discriminate].
+  match goal with |- (if ?b then _ else _) <> _ => destruct b end; [|discriminate].
+  match goal with |- (if ?b then _ else _) <> _ => destruct b end; discriminate.
+Qed.
+
 Theorem fence_open_in_range (line : bytes) (pos : Z) (ch : N) (ind n : Z) (info : option (Z * Z)) :
   0 <= pos ->
   fence_open space_table line pos = Ok (Some (ch, ind, n, info)) ->
   (ch = 96%N \/ ch = 126%N) /\ ind = pos /\ 3 <= n /\ pos + n <= zlen line /\
   match info with Some (a, b) => pos + n <= a /\ a < b /\ b <= zlen line | None => True end.
-Proof. Admitted.
+Proof.
+  intros Hpos H. unfold fence_open in H.
+  destruct (Z.ltb_spec pos 0) as [Hneg|_]; [lia|].
+  unfold at_ in H.
+  destruct (Z.leb_spec 0 pos) as [_|Hc]; [|lia].
+  destruct (Z.ltb_spec pos (zlen line)) as [Hlt|Hge]; cbn [andb bind] in H; [|discriminate].
+  cbv zeta in H.
+  set (c := nth (Z.to_nat pos) line 0%N) in H.
+  assert (Hc : negb (N.eqb c 96 || N.eqb c 126) = false -> c = 96%N \/ c = 126%N).
+  { destruct (N.eqb_spec c 96) as [E|E]; [left; exact E|].
+    destruct (N.eqb_spec c 126) as [E'|E']; [right; exact E'|]. cbn. discriminate. }
+  destruct (negb (N.eqb c 96 || N.eqb c 126)); [discriminate|].
+  specialize (Hc eq_refl).
+  set (k := count_byte c (zskip pos line)) in H.
+  assert (Hk : 0 <= k <= zlen (zskip pos line)) by apply br_count_byte_range.
+  rewrite br_zlen_zskip in Hk.
+  destruct (Z.ltb_spec k 3) as [H3|H3]; [discriminate|].
+  destruct (Z.ltb_spec (pos + k) (zlen line - 1)) as [Hi|Hi].
+  2:{ injection H as H1 H2 H3' H4. subst ch ind n info. repeat split; try lia. exact Hc. }
+  set (rest := zskip (pos + k) line) in H.
+  assert (Hrest : zlen rest = zlen line - (pos + k)).
+  { subst rest. rewrite br_zlen_zskip. lia. }
+  pose proof (br_tls_range space_table rest) as Hl.
+  pose proof (br_trs_range space_table rest) as Hr.
+  destruct (Z.ltb_spec (trim_left_space_len space_table rest) (zlen rest - trim_right_space_len space_table rest)) as [Hlr|Hlr].
+  2:{ injection H as H1 H2 H3' H4. subst ch ind n info. repeat split; try lia. exact Hc. }
+  match type of H with (if ?b then _ else _) = _ => destruct b end; [discriminate|].
+  injection H as H1 H2 H3' H4. subst ch ind n info. repeat split; try lia. exact Hc.
+Qed.
+
 Theorem fence_continue_in_range (line : bytes) (off pad : Z) (ch : N) (indent flen : Z) :
   0 <= off -> 0 <= pad -> 0 <= indent ->
   match fence_continue space_table line off pad ch indent flen with
   | inl adv => 0 <= adv <= zlen line
   | inr (p, padding) => 0 <= p + pad /\ p <= zlen line /\ 0 <= padding
   end.
-Proof. Admitted.
+Proof.
+  intros Hoff Hpad Hind. unfold fence_continue.
+  pose proof (br_zlen_nonneg line) as Hlen.
+  destruct (indent_width line off) as [w pos]. cbv zeta.
+  match goal with |- match (if ?b then _ else _) with _ => _ end => destruct b end.
+  - destruct line as [|c0 r0].
+    + rewrite br_zlen_nil. cbn. lia.
+    + rewrite br_zlen_cons in *. pose proof (br_zlen_nonneg r0) as Hr0.
+      destruct (N.eqb (nth_byte (c0 :: r0) (1 + zlen r0 - 1)) 10); lia.
+  - unfold indent_position_padding.
+    destruct (Z.eqb_spec indent 0) as [E|E].
+    + destruct (Z.ltb_spec 0 0) as [Hc|_]; [lia|]. lia.
+    + destruct (indent_position_loop line off 0 0 pad indent) as [w' i'] eqn:Hloop.
+      apply br_ip_loop_range in Hloop.
+      assert (Hq : 0 <= 0 + pad /\ 0 <= (if first_non_space_position line 0 <? 0 then 0 else first_non_space_position line 0) <= zlen line).
+      { destruct (br_fnsp_range line 0) as [Eq|Eq].
+        - rewrite Eq. cbn. lia.
+        - destruct (Z.ltb_spec (first_non_space_position line 0) 0); lia. }
+      destruct (Z.leb_spec indent w') as [Hle|Hlt].
+      * destruct (Z.ltb_spec (i' - pad) 0) as [Hn|Hn]; [lia|]. lia.
+      * destruct (Z.ltb_spec (-1) 0) as [_|Hc]; [|lia]. lia.
+Qed.
 End WithTables.
 
 (* ScanDelimiter reads line[0] and the rune after the run: no panic on a non-empty line, and the
    run it reports is inside the line *)
+Lemma br_to_rune_ok (line : bytes) (j : Z) : j < zlen line -> to_rune line j <> Panic.
+Proof.
+  intros Hj. unfold to_rune.
+  destruct (Z.ltb_spec j 0) as [_|_]; [discriminate|].
+  destruct (Z.leb_spec (zlen line) j) as [Hc|_]; [lia|].
+  destruct (rune_start_before _ _); discriminate.
+Qed.
+
+Lemma br_count_byte_head c r : 1 <= count_byte c (c :: r) <= zlen (c :: r).
+Proof.
+  pose proof (br_count_byte_range c (c :: r)) as H. split; [|apply H].
+  cbn [count_byte]. rewrite N.eqb_refl. pose proof (br_count_byte_range c r). lia.
+Qed.
+
 Theorem scan_delimiter_total (pr sr : N -> bool) (isd : N -> bool) (line : bytes) (before : N) (minimum : Z) :
   line <> [] -> scan_delimiter pr sr isd line before minimum <> Panic.
-Proof. Admitted.
+Proof.
+  intros Hne. destruct line as [|c r]; [contradiction|].
+  unfold scan_delimiter. cbv zeta.
+  destruct (negb (isd c)); [discriminate|].
+  pose proof (br_count_byte_head c r) as Hj.
+  destruct (count_byte c (c :: r) <? minimum); [discriminate|].
+  destruct (Z.eqb_spec (count_byte c (c :: r)) (zlen (c :: r))) as [E|E].
+  - cbn [bind]. destruct (N.eqb c 95); discriminate.
+  - pose proof (br_to_rune_ok (c :: r) (count_byte c (c :: r))) as Hr.
+    destruct (to_rune (c :: r) (count_byte c (c :: r))) as [a| |] eqn:Er.
+    + cbn [bind]. destruct (N.eqb c 95); discriminate.
+    + exfalso. apply Hr; [lia|reflexivity].
+    + cbn [bind]. discriminate.
+Qed.
+
 Theorem scan_delimiter_in_range (pr sr : N -> bool) (isd : N -> bool) (line : bytes) (before : N) (minimum : Z) co cc len ch :
   scan_delimiter pr sr isd line before minimum = Ok (Some (co, cc, len, ch)) ->
   1 <= len <= zlen line /\ minimum <= len /\ isd ch = true.
-Proof. Admitted.
+Proof.
+  intros H. destruct line as [|c r]; [discriminate|].
+  unfold scan_delimiter in H. cbv zeta in H.
+  destruct (isd c) eqn:Hd; cbn [negb] in H; [|discriminate].
+  pose proof (br_count_byte_head c r) as Hj.
+  destruct (Z.ltb_spec (count_byte c (c :: r)) minimum) as [Hm|Hm]; [discriminate|].
+  destruct (if count_byte c (c :: r) =? zlen (c :: r) then Ok 32%N else to_rune (c :: r) (count_byte c (c :: r)))
+    as [a| |]; cbn [bind] in H; try discriminate.
+  destruct (N.eqb c 95); injection H as _ _ Hlen Hch; subst len ch; repeat split; try lia; exact Hd.
+Qed.
